@@ -236,10 +236,38 @@ class Hier:
         for p, s in self.suites.items():
             p.parent.mkdir(parents=True, exist_ok=True)
             txt = ''
-            if s['suites']:
-                txt += '[suites]\n' + '\n'.join(s['suites']) + '\n'
-            if s['cases']:
-                txt += '[cases]\n' + '\n'.join(s['cases']) + '\n'
+            layout = self.rng.below(4)
+            cs, ss = s['cases'], s['suites']
+            if layout == 0 or (len(cs) < 2 and len(ss) < 2):
+                if ss:
+                    txt += '[suites]\n' + '\n'.join(ss) + '\n'
+                if cs:
+                    txt += '[cases]\n' + '\n'.join(cs) + '\n'
+            elif layout == 1:
+                # a section may be entered several times: its parts are merged, in file order
+                h = max(1, len(cs) // 2)
+                txt += '[cases]\n' + '\n'.join(cs[:h]) + '\n'
+                if ss:
+                    txt += '[suites]\n' + '\n'.join(ss) + '\n'
+                if cs[h:]:
+                    txt += '[cases]\n' + '\n'.join(cs[h:]) + '\n'
+            elif layout == 2:
+                # cases before any header (the default section is [cases]), then the sections again
+                h = max(1, len(cs) // 2) if cs else 0
+                if cs:
+                    txt += '\n'.join(cs[:h]) + '\n'
+                g = max(1, len(ss) // 2) if ss else 0
+                if ss:
+                    txt += '[suites]\n' + '\n'.join(ss[:g]) + '\n'
+                if cs[h:]:
+                    txt += '[cases]\n# a comment\n\n' + '\n'.join(cs[h:]) + '\n'
+                if ss[g:]:
+                    txt += '[suites]\n' + '\n'.join(ss[g:]) + '\n'
+            else:
+                if cs:
+                    txt += '[cases]\n' + '\n'.join(cs) + '\n'
+                if ss:
+                    txt += '[suites]\n' + '\n'.join(ss) + '\n'
             if s['bad']:
                 txt += "[suites]\n'unterminated quoted name\n" if self.rng.chance(0.5) else '[no-such-section]\nx\n'
             p.write_text(txt)
